@@ -11,6 +11,7 @@ import (
 	"net"
 	"net/http"
 	"net/url"
+	"regexp"
 	"strings"
 	"sync"
 	"sync/atomic"
@@ -42,7 +43,7 @@ type Case struct {
 	Cut     int    `json:"cut"`               // bytes of the response that are written
 	End     string `json:"end,omitempty"`     // fin | rst
 
-	Dial    string `json:"dial,omitempty"`    // refused | accept-close | accept-rst
+	Dial    string `json:"dial,omitempty"`    // one of dialOutcomes
 	Payload string `json:"payload,omitempty"` // class of non-HTTP bytes
 	Seed    uint64 `json:"seed,omitempty"`
 
@@ -63,7 +64,31 @@ type Case struct {
 	Downstream bool `json:"downstream,omitempty"`
 	// Kind rt-error: the round tripper the embedding program installed fails for
 	// request 1 without touching the request body (as a circuit breaker does).
+
+	// Refusal (kind truncate, with Downstream and ConnectFirst): the downstream
+	// proxy refuses the CONNECT with this status and a body framed as Framing
+	// says; its answer is cut at Cut like any other response, or (End "keep") it
+	// is complete and the downstream proxy keeps its connection open, as an
+	// HTTP/1.1 proxy does after an answer that is not a tunnel.
+	Refusal int `json:"refusal,omitempty"`
+	// Timeout (ms, 0 = 60 s) is the proxy's timeout; the client idles Idle ms on
+	// its fresh connection before it sends request 1, and the origin waits Slow
+	// ms after reading the request before it fails: Idle+Slow exceeds Timeout,
+	// Slow alone is well within it.
+	Timeout int `json:"timeout,omitempty"`
+	Idle    int `json:"idle,omitempty"`
+	Slow    int `json:"slow,omitempty"`
 }
+
+type dialTimeout struct{}
+
+func (dialTimeout) Error() string   { return "i/o timeout" }
+func (dialTimeout) Timeout() bool   { return true }
+func (dialTimeout) Temporary() bool { return true }
+
+// dialOutcomes: what a dial can come to. The first three are played by the
+// harness (refusal reported without address, accepted then closed / reset).
+var dialOutcomes = []string{"refused", "accept-close", "accept-rst", "unresolvable", "bad-port", "bad-address", "refused-real", "timeout", "plain-error"}
 
 // failingRT fails for one host without reading the request.
 type failingRT struct {
@@ -77,6 +102,12 @@ func (f failingRT) RoundTrip(req *http.Request) (*http.Response, error) {
 	return f.next.RoundTrip(req)
 }
 
+var warnDate = regexp.MustCompile(`"([A-Z][a-z][a-z], [0-9]{2} [A-Z][a-z][a-z] [0-9]{4} [0-9:]{8} GMT)"$`)
+
+// The process lives in a zone that is not GMT, as most do: a time that is
+// formatted without being converted shows.
+func init() { time.Local = time.FixedZone("verif-east", 5*3600) }
+
 const marker2 = "MARKER-TWO-7f3a91c2"
 const marker3 = "MARKER-THREE-55e0b7"
 
@@ -86,7 +117,11 @@ func (c *Case) template() (raw []byte, headLen int) {
 		b.WriteString("HTTP/1.1 200 Connection established\r\nVia: 1.1 downstream.test\r\n\r\n")
 		return b.Bytes(), b.Len()
 	}
-	b.WriteString("HTTP/1.1 200 OK\r\n")
+	if c.Refusal != 0 {
+		fmt.Fprintf(&b, "HTTP/1.1 %d %s\r\n", c.Refusal, http.StatusText(c.Refusal))
+	} else {
+		b.WriteString("HTTP/1.1 200 OK\r\n")
+	}
 	if c.Pad > 0 {
 		fmt.Fprintf(&b, "X-Pad: %s\r\n", kit.Text(7, c.Pad))
 	}
@@ -205,6 +240,9 @@ func (r *recConn) bytes() []byte {
 }
 
 func shape(c Case, headLen, total int) string {
+	if c.Idle > 0 {
+		return "late-request-" + c.Kind
+	}
 	switch c.Kind {
 	case "dial":
 		if c.Downstream {
@@ -222,7 +260,7 @@ func shape(c Case, headLen, total int) string {
 	case "rt-error":
 		return "round-tripper-error"
 	}
-	if c.Downstream {
+	if c.Downstream && c.Refusal == 0 {
 		return "connect-downstream-answer-cut"
 	}
 	pos := "post-head"
@@ -234,11 +272,27 @@ func shape(c Case, headLen, total int) string {
 	case c.Cut >= total:
 		pos = "complete-then-close"
 	}
+	if c.Refusal != 0 {
+		if c.End == "keep" {
+			return "connect-downstream-refusal-kept-open"
+		}
+		return "connect-downstream-refusal-cut-" + pos
+	}
 	return "truncate-" + c.Framing + "-" + pos
 }
 
 func run(c Case) kit.Verdict {
 	v := runOnce(c, kit.T())
+	if c.Idle > 0 && len(v) > 0 && !kit.Shrinking() {
+		// timing is part of the case: say it only if it also fails with every span doubled
+		c2 := c
+		c2.Timeout, c2.Idle, c2.Slow = 2*c.Timeout, 2*c.Idle, 2*c.Slow
+		if v2 := runOnce(c2, 2*kit.T()); len(v2) == 0 {
+			kit.Inconclusive("faults")
+			return nil
+		}
+		return v
+	}
 	retry := false
 	for _, f := range v {
 		if strings.Contains(f.Sig, "timeout") || strings.Contains(f.Sig, "not-followed-by-close") {
@@ -287,19 +341,23 @@ func runOnce(c Case, T time.Duration) (v kit.Verdict) {
 			}
 			return netkit.Script{Raw: []byte(fmt.Sprintf("HTTP/1.1 200 OK\r\nContent-Length: %d\r\nX-Healthy: yes\r\n\r\n%s", len(m), m)), CutAt: -1}
 		}
+		slow := time.Duration(c.Slow) * time.Millisecond
 		switch c.Kind {
 		case "nonhttp":
-			return netkit.Script{Raw: c.payload(), CutAt: -1, After: "close"}
+			return netkit.Script{Raw: c.payload(), CutAt: -1, After: "close", Delay: slow}
 		default:
 			after := "close"
-			if c.End == "rst" {
+			switch c.End {
+			case "rst":
 				after = "rst"
+			case "keep":
+				return netkit.Script{Raw: raw, CutAt: -1, After: "keep"}
 			}
-			return netkit.Script{Raw: raw, CutAt: c.Cut, After: after}
+			return netkit.Script{Raw: raw, CutAt: c.Cut, After: after, Delay: slow}
 		}
 	})
 	defer faulty.Close()
-	if c.Kind == "dial" && !(c.Downstream && c.Dial == "refused") {
+	if c.Kind == "dial" && (c.Dial == "accept-close" || c.Dial == "accept-rst") {
 		faulty.AcceptHook = func(idx int, conn net.Conn) bool {
 			if c.Downstream && idx > 0 {
 				return false // only the connection made for the CONNECT is dropped
@@ -326,7 +384,35 @@ func runOnce(c Case, T time.Duration) (v kit.Verdict) {
 	}}
 	p := martian.NewProxy()
 	p.SetTimeout(60 * time.Second)
-	p.SetDial(dialer.Dial)
+	if c.Timeout > 0 {
+		p.SetTimeout(time.Duration(c.Timeout) * time.Millisecond)
+	}
+	p.SetDial(func(network, addr string) (net.Conn, error) {
+		if c.Kind == "dial" && !c.Downstream && strings.HasPrefix(addr, "faulty.test") {
+			// dial outcomes as the net package itself reports them
+			switch c.Dial {
+			case "unresolvable": // no address exists yet: OpError.Addr and Source are nil
+				return nil, &net.OpError{Op: "dial", Net: network, Err: &net.DNSError{Err: "no such host", Name: "faulty.test", IsNotFound: true}}
+			case "bad-port":
+				return net.Dial("tcp", "127.0.0.1:99999")
+			case "bad-address":
+				return net.Dial("tcp", "[fe80::1%%]:80")
+			case "refused-real":
+				l, err := netkit.Listen()
+				if err != nil {
+					return nil, err
+				}
+				to := l.Addr().String()
+				l.Close()
+				return net.Dial("tcp", to)
+			case "timeout":
+				return nil, &net.OpError{Op: "dial", Net: network, Addr: &net.TCPAddr{IP: net.IPv4(192, 0, 2, 1), Port: 80}, Err: dialTimeout{}}
+			case "plain-error": // a custom dialer's error that is no OpError at all
+				return nil, errors.New("verif: no route to " + addr)
+			}
+		}
+		return dialer.Dial(network, addr)
+	})
 	if c.Downstream {
 		p.SetDownstreamProxy(&url.URL{Scheme: "http", Host: "downstream.test:3128"})
 	}
@@ -379,6 +465,7 @@ func runOnce(c Case, T time.Duration) (v kit.Verdict) {
 		method1 = "CONNECT"
 	}
 	req2 := "GET http://healthy.test/second HTTP/1.1\r\nHost: healthy.test\r\n\r\n"
+	time.Sleep(time.Duration(c.Idle) * time.Millisecond)
 	rc.SetWriteDeadline(time.Now().Add(10 * time.Second))
 	if _, err := rc.Write([]byte(req1)); err != nil {
 		return kit.Failf(sig("client-write-failed"), "writing request 1: %v", err)
@@ -424,7 +511,7 @@ func runOnce(c Case, T time.Duration) (v kit.Verdict) {
 		}
 	}
 
-	rc.SetReadDeadline(time.Now().Add(T))
+	rc.SetReadDeadline(time.Now().Add(T + time.Duration(c.Slow)*time.Millisecond))
 	res1, err := http.ReadResponse(br, &http.Request{Method: method1})
 	switch {
 	case err != nil:
@@ -444,6 +531,17 @@ func runOnce(c Case, T time.Duration) (v kit.Verdict) {
 		}
 		if res1.Header.Get("Warning") == "" {
 			v.Addf(sig("502-without-warning"), "502 carries no Warning header: %v", res1.Header)
+		}
+		for _, w := range res1.Header["Warning"] {
+			// warning-value = warn-code SP warn-agent SP warn-text [ SP DQUOTE HTTP-date DQUOTE ]:
+			// an HTTP-date is a time in GMT. (The harness runs with a local zone five hours east of it.)
+			if m := warnDate.FindStringSubmatch(w); m != nil {
+				if d, err := time.Parse(http.TimeFormat, m[1]); err == nil {
+					if off := time.Since(d); off > time.Hour || off < -time.Hour {
+						v.Addf("C03/502/any-upstream-failure/warn-date-is-not-the-time-in-gmt", "the 502's Warning %q is dated %v away from the present (local zone of the process: %s)", w, -off.Round(time.Minute), time.Now().Format("-07:00"))
+					}
+				}
+			}
 		}
 		if res1.Header.Get("X-Verif-Resmod") != "1" {
 			v.Addf(sig("502-bypassed-response-modifier"), "502 lacks the response modifier's stamp: %v", res1.Header)
@@ -542,7 +640,7 @@ func nontrivial(c Case) bool {
 		return true
 	}
 	raw, _ := c.template()
-	return c.Cut > 0 && c.Cut < len(raw)
+	return (c.Cut > 0 && c.Cut < len(raw)) || c.End == "keep" || c.Idle > 0
 }
 
 func classes(c Case) []string {
@@ -556,6 +654,12 @@ func classes(c Case) []string {
 	}
 	if c.Downstream {
 		out = append(out, "failing-downstream-proxy")
+	}
+	if c.Refusal != 0 {
+		out = append(out, "downstream-proxy-refuses-connect")
+	}
+	if c.Idle > 0 {
+		out = append(out, "request-late-in-idle-window")
 	}
 	if c.Post && (c.Kind == "dial" || c.Kind == "rt-error") {
 		out = append(out, "request-body-nobody-read")
@@ -578,8 +682,8 @@ var propFaults = &kit.Prop[Case]{ID: "C03", Name: "faults", Rule: "rapid-drawn: 
 		c := Case{Kind: kind, Post: rapid.Bool().Draw(t, "post"), Seed: rapid.Uint64Range(1, 1<<16).Draw(t, "seed"), Logger: rapid.IntRange(0, 2).Draw(t, "logger") == 0, Shaped: rapid.IntRange(0, 4).Draw(t, "shaped") == 0}
 		switch kind {
 		case "dial":
-			c.Dial = rapid.SampledFrom([]string{"refused", "accept-close", "accept-rst"}).Draw(t, "dial")
-			if c.Dial == "refused" && rapid.Bool().Draw(t, "connect_first") {
+			c.Dial = rapid.SampledFrom(dialOutcomes).Draw(t, "dial")
+			if !strings.HasPrefix(c.Dial, "accept-") && rapid.Bool().Draw(t, "connect_first") {
 				c.ConnectFirst, c.Post = true, false
 			}
 		case "nonhttp":
@@ -593,6 +697,14 @@ var propFaults = &kit.Prop[Case]{ID: "C03", Name: "faults", Rule: "rapid-drawn: 
 				c.Chunks = rapid.SliceOfN(rapid.SampledFrom([]int{1, 3, 10, 500, 4096}), 1, 4).Draw(t, "chunks")
 			}
 			c.End = rapid.SampledFrom([]string{"fin", "rst"}).Draw(t, "end")
+			refusal := rapid.IntRange(0, 5).Draw(t, "refusal") == 0
+			if refusal {
+				c.Refusal = rapid.SampledFrom([]int{403, 407, 500, 503, 504}).Draw(t, "status")
+				c.ConnectFirst, c.Downstream, c.Post, c.Logger, c.Shaped = true, true, false, false, false
+				if c.Body > 5000 {
+					c.Body = 5000
+				}
+			}
 			raw, headLen := c.template()
 			switch rapid.IntRange(0, 4).Draw(t, "where") {
 			case 0:
@@ -609,6 +721,9 @@ var propFaults = &kit.Prop[Case]{ID: "C03", Name: "faults", Rule: "rapid-drawn: 
 			}
 			if c.Cut > len(raw) {
 				c.Cut = len(raw)
+			}
+			if refusal && rapid.IntRange(0, 3).Draw(t, "keep") == 0 {
+				c.End, c.Cut = "keep", len(raw)
 			}
 		}
 		return c
@@ -652,7 +767,7 @@ func TestTruncationExhaustive(t *testing.T) {
 func TestDialAndNonHTTPMatrix(t *testing.T) {
 	propMatrix.Enumerate(t, func(yield func(Case) bool) {
 		for _, post := range []bool{false, true} {
-			for _, d := range []string{"refused", "accept-close", "accept-rst"} {
+			for _, d := range dialOutcomes {
 				if !yield(Case{Kind: "dial", Dial: d, Post: post}) {
 					return
 				}
@@ -663,8 +778,13 @@ func TestDialAndNonHTTPMatrix(t *testing.T) {
 				}
 			}
 		}
-		if !yield(Case{Kind: "dial", Dial: "refused", ConnectFirst: true}) {
-			return
+		for _, d := range dialOutcomes {
+			if strings.HasPrefix(d, "accept-") {
+				continue // an accepted connection is a tunnel, however short-lived (C04)
+			}
+			if !yield(Case{Kind: "dial", Dial: d, ConnectFirst: true}) {
+				return
+			}
 		}
 		for _, post := range []bool{false, true} {
 			if !yield(Case{Kind: "rt-error", Post: post}) {
@@ -696,6 +816,34 @@ func TestDialAndNonHTTPMatrix(t *testing.T) {
 				}
 			}
 		}
+		// the downstream proxy refuses the CONNECT with a framed answer: every cut of it, and the complete answer on a connection it keeps
+		for i, base := range []Case{
+			{Kind: "truncate", Framing: "cl", Body: 10, Refusal: 503, ConnectFirst: true, Downstream: true},
+			{Kind: "truncate", Framing: "chunked", Body: 7, Chunks: []int{3, 4}, Refusal: 407, ConnectFirst: true, Downstream: true},
+		} {
+			raw, _ := base.template()
+			for k := 0; k <= len(raw); k++ {
+				c := base
+				c.Cut, c.End = k, []string{"fin", "rst"}[(k+i)%2]
+				if !yield(c) {
+					return
+				}
+			}
+			c := base
+			c.Cut, c.End = len(raw), "keep"
+			if !yield(c) {
+				return
+			}
+		}
+		// the failure comes when most of the idle window had passed before the request was sent
+		for _, c := range []Case{
+			{Kind: "truncate", Framing: "cl", Body: 10, Cut: 0, End: "fin", Timeout: 2000, Idle: 1200, Slow: 1200},
+			{Kind: "nonhttp", Payload: "ssh", Seed: 5, Timeout: 2000, Idle: 1200, Slow: 1200},
+		} {
+			if !yield(c) {
+				return
+			}
+		}
 	})
 }
 
@@ -703,4 +851,4 @@ func TestFaults(t *testing.T) {
 	propFaults.Check(t, kit.N(300, 800))
 }
 
-func TestReplay(t *testing.T) { kit.Replay(t, propEnum, propMatrix, propFaults, propClient, propRep) }
+func TestReplay(t *testing.T) { kit.Replay(t, propEnum, propMatrix, propFaults, propClient, propRep, propHello) }
